@@ -101,9 +101,16 @@ def zm_random(rng, kind):
         return ['pt', list(rng.choice(ZM_POS)) + v()]
     if kind == 'line':
         return ['ln', [list(p) + v() for p in rng.sample(ZM_POS, rng.choice((2, 3)))]]
+    # On the unchanged code GeoPolygon.bounds / GeoLineString.bounds raise ValueError when EVERY vertex carries a truthy Z or M
+    # (to_float() then has 3-4 entries everywhere and `lons, lats = zip(*...)` cannot unpack; reported), and a polygon's
+    # contains_coordinate starts from its bounds.  So every ring keeps one vertex with falsy ordinates; linestrings are not
+    # restricted (their contains_coordinate does not need bounds; cases where a member itself raises are counted, not judged).
+    def ring(x0, y0, w):
+        r = [list(p) + v() for p in sq(x0, y0, w)[:4]]
+        r[rng.randrange(4)][2:] = [rng.choice((None, 0.0)), rng.choice((None, 0.0))]
+        return r
     x, y = rng.choice(ZM_SQ)
-    holes = [[list(p) + v() for p in sq(x + 1, y + 1, 2)[:4]]] if rng.random() < 0.5 else []
-    return ['pg', [list(p) + v() for p in sq(x, y, 4)[:4]], holes]
+    return ['pg', ring(x, y, 4), [ring(x + 1, y + 1, 2)] if rng.random() < 0.5 else []]
 
 
 def zm_positions(desc):
@@ -242,14 +249,32 @@ def main():
     # law evaluated on the members' own purely spatial answers (contains_coordinate / contains_shape / intersects_shape).
     quick = ck.tier == 'quick'
 
+    skipped = [0]
+
+    def member_raised():
+        """a MEMBER's own query raised (the law is stated relative to the members' answers, so there is nothing to judge):
+        counted, never silent - see 'member_raised' in the coverage record"""
+        skipped[0] += 1
+        return None
+
+    raised = [0]
+
+    def multi_raised(case):
+        """the members answered but the multi-shape raised: at most 5 replays (a changed library can raise on whole families)"""
+        raised[0] += 1
+        if raised[0] <= 5:
+            ck.violation({'kind': 'implementation-raised', 'case': case})
+
     def recv_case(M, mem, X, parts, is_multi, m):
-        r = guarded(lambda: ([[a.contains_shape(p) for p in parts] for a in mem],
-                             [[a.intersects_shape(p) for p in parts] for a in mem],
-                             M.contains_shape(X), M.intersects_shape(X)))
+        rm = guarded(lambda: ([[a.contains_shape(p) for p in parts] for a in mem],
+                              [[a.intersects_shape(p) for p in parts] for a in mem]))
+        if rm[0] != 'Ok':
+            return member_raised()
+        r = guarded(lambda: (M.contains_shape(X), M.intersects_shape(X)))
         if r[0] != 'Ok':
-            ck.violation({'kind': 'implementation-raised', 'case': dict(m, err=r[1])})
+            multi_raised(dict(m, err=r[1]))
             return None
-        ctab, itab, ocs, ois = r[1]
+        (ctab, itab), (ocs, ois) = rm[1], r[1]
         add(f'KRecv {len(mem)} {len(parts)} {blit(is_multi)} {tlit(ctab)} {tlit(itab)} {blit(ocs)} {blit(ois)}',
             dict(m, ctab=ctab, itab=itab, obs=[ocs, ois]))
         exp_is = any(any(r_) for r_ in itab)
@@ -259,23 +284,28 @@ def main():
         return exp_cs, exp_is
 
     def arg_case(x, M, mem, m):
-        r = guarded(lambda: ([x.intersects_shape(a) for a in mem], [x.contains_shape(a) for a in mem],
-                             x.intersects_shape(M), x.contains_shape(M)))
+        rm = guarded(lambda: ([x.intersects_shape(a) for a in mem], [x.contains_shape(a) for a in mem]))
+        if rm[0] != 'Ok':
+            return member_raised()
+        r = guarded(lambda: (x.intersects_shape(M), x.contains_shape(M)))
         if r[0] != 'Ok':
-            ck.violation({'kind': 'implementation-raised', 'case': dict(m, err=r[1])})
+            multi_raised(dict(m, err=r[1]))
             return
-        xi, xc, o_is, o_cs = r[1]
+        (xi, xc), (o_is, o_cs) = rm[1], r[1]
         add(f'KArg {blist(xi)} {blist(xc)} {blit(o_is)} {blit(o_cs)}', dict(m, xi=xi, xc=xc, obs=[o_is, o_cs]))
         if (o_is, o_cs) != (any(xi), all(xc)):
             meta[-1]['property_violation'] = {'expected': [any(xi), all(xc)]}
 
     def cc_case(M, mem, c, m):
         """all three entry points of the coordinate test against any(member.contains_coordinate(c))"""
-        r = guarded(lambda: ([a.contains_coordinate(c) for a in mem], [M.contains_coordinate(c), M.contains(c), c in M]))
+        rm = guarded(lambda: [a.contains_coordinate(c) for a in mem])
+        if rm[0] != 'Ok':
+            return member_raised()
+        r = guarded(lambda: [M.contains_coordinate(c), M.contains(c), c in M])
         if r[0] != 'Ok':
-            ck.violation({'kind': 'implementation-raised', 'case': dict(m, coord=[c.longitude, c.latitude, c.z, c.m], err=r[1])})
+            multi_raised(dict(m, coord=[c.longitude, c.latitude, c.z, c.m], err=r[1]))
             return None
-        ccs, o = r[1]
+        ccs, o = rm[1], r[1]
         exp = any(ccs)
         shown = next((x for x in o if x != exp), o[0])          # the model is given an entry point that deviates, if one does
         add(f'KCC {blist(ccs)} {blit(shown)}', dict(m, coord=[c.longitude, c.latitude, c.z, c.m], ccs=ccs,
@@ -285,7 +315,10 @@ def main():
         return exp
 
     def bounds_case(M, mem, m):
-        bs_ = [ibounds(a) for a in mem]
+        rm = guarded(lambda: [ibounds(a) for a in mem])
+        if rm[0] != 'Ok':
+            return member_raised()
+        bs_ = rm[1]
         ob_ = guarded(lambda: ibounds(M))
         if all(b is not None for b in bs_) and (ob_[0] != 'Ok' or ob_[1] is not None):
             add(f'KBounds {listlit([bndlit(b) for b in bs_])} {reslit(ob_, bndlit)}', dict(m, bs=bs_, obs=ob_))
@@ -300,7 +333,7 @@ def main():
         M = cls([build(d) for d in descs])
         cur = list(descs)
         hist = []
-        probe(M, cur, dict(m, members=list(cur), history=[]), True)
+        probe(M, cur, dict(m, initial_members=list(descs), members=list(cur), history=[]), True)
         for _ in range(nops):
             op = rng.choice([o for o in OPS if len(cur) > 1 or o not in ('pop', 'pop0', 'del')])
             i = rng.randrange(len(cur))
@@ -321,7 +354,7 @@ def main():
             else:                       # the attribute is assigned a new list: the old members reversed, plus one
                 d = new_desc(); M.geoshapes = list(reversed(M.geoshapes)) + [build(d)]; cur = list(reversed(cur)) + [d]
                 hist.append([op, 'reversed +', d])
-            probe(M, cur, dict(m, members=list(cur), history=[list(h) for h in hist]), False)
+            probe(M, cur, dict(m, initial_members=list(descs), members=list(cur), history=[list(h) for h in hist]), False)
 
     # ================================================================================================================
     # Family "ordinates".  Mechanism class: a multi-shape that answers the coordinate test from anything other than its
@@ -383,7 +416,7 @@ def main():
                     if v != (None, None) or q != (None, None):
                         nontriv.add(('zm', kind, str(descs), p, q))
         # seeded: 1..4 random members (positions repeat, so several members share a position with different ordinates)
-        for _ in range(6 if quick else 40):
+        for _ in range(6 if quick else 20):
             descs = [zm_random(rng, kind) for _ in range(rng.choice((1, 2, 3, 4)))]
             history(cls, descs, zm_build, lambda: zm_random(rng, kind), zm_probe_for(kind, {}), {'kind': kind}, 2 if quick else 4)
 
@@ -406,7 +439,7 @@ def main():
         return probe
 
     for kind, (pool, cls) in POOLS.items():
-        for _ in range(5 if quick else 30):
+        for _ in range(5 if quick else 16):
             names = [rng.choice(sorted(pool)) for _ in range(rng.choice((1, 2, 3)))]
             history(cls, names, lambda n, pool=pool: pool[n](), lambda pool=pool: rng.choice(sorted(pool)),
                     pool_probe_for(kind, {}), {'kind': kind}, 2 if quick else 4)
@@ -426,7 +459,7 @@ def main():
 
     stamped = [(k_, pm, [DT_MEMBER[1 + (i + j) % 5] for j in range(len(pm))], DT_MULTI[i % 4]) for i, (k_, pm) in enumerate(fixed_multis)]
     pick = [m_ for m_ in multis if m_ not in fixed_multis]
-    for k_, pm in rng.sample(pick, min(len(pick), 12 if quick else 60)):
+    for k_, pm in rng.sample(pick, min(len(pick), 12 if quick else 36)):
         st = [rng.choice(DT_MEMBER) for _ in pm]
         st[rng.randrange(len(pm))] = rng.choice(DT_MEMBER[1:])          # at least one member is stamped
         stamped.append((k_, pm, st, rng.choice(DT_MULTI)))
@@ -458,6 +491,10 @@ def main():
 
     ck.cov['evaluations'] = len(cases)
     ck.cov['distinct_nontrivial'] = len(nontriv)
+    ck.cov['member_raised'] = skipped[0]
+    for m_ in meta:
+        ck.count(m_['k'])
+    ck.cov['multi_raised'] = raised[0]
     for i in (0, 50, 1000, len(cases) - 1):
         ck.sample(cases[min(i, len(cases) - 1)])
     bad, broken = ck.corr('multi', 'From GV Require Import Prelude TimeM TimeK ShapeM ShapeK.', 'mcheck', cases)
